@@ -97,6 +97,23 @@ def hSel32R64 : List String → String → Res
     some (showOpt showPair (select32R64 ws s r i), if big ws then "big" else verdictEq (selSpec ws i) impl)
   | _, _ => none
 
+/-- `sel32m ws i1,i2,…` / `sel32r64m`: many queries on one bitmap, indexes built once -/
+def hSelMany (r64 : Bool) : List String → String → Res
+  | [ws, is], impl => do
+    let ws ← pNatList ws; let is ← pNatList is
+    let sidx := indexSelect32 ws
+    let ridx := indexRank64 ws true
+    let outs := is.map fun i =>
+      showOpt showPair (if r64 then select32R64 ws sidx ridx i else select32 ws sidx i)
+    let model := String.intercalate ";" outs
+    if big ws then some (model, "big") else
+    let os := ones ws
+    let spec := is.map fun i => match os[i]? with
+      | none => "PANIC"
+      | some a => showPair (a, os.getD (i + 1) (64 * ws.length))
+    some (model, verdictEq (String.intercalate ";" spec) impl)
+  | _, _ => none
+
 /-! C12 -/
 def sortInts (l : List Int) : List Int := (l.toArray.qsort (· < ·)).toList
 def dedupSorted (l : List Int) : List Int := (sortInts l).eraseDups
